@@ -134,7 +134,10 @@ def _work2(pid, tier, unit):
         mod = _module(pid)
         try:
             res = mod.run_unit(unit, tier)
-        except StopUnit as stop:
+        except Exception as stop:
+            # (by name: the property modules import this module as `mc.run`, while the check runs it as `__main__`)
+            if type(stop).__name__ != "StopUnit":
+                raise
             res = stop.res
             res.count("caps_hit")      # (only ever on a tree that violates the property: the evidence then says "not exhaustive")
         # make violations picklable / JSON-able early
